@@ -369,7 +369,7 @@ func checkC16(res *Result) {
 		ff := computeFacts(fn)
 		for _, ci := range callsIn(fn) {
 			if ci.Common().IsInvoke() && ci.Common().Method.Name() == "Remove" {
-				tot, why := totalLoop(loopBlocks(ci.Block()), failureReturnPred(ff))
+				tot, why := totalLoopFF(ff, loopBlocks(ci.Block()))
 				res.check(tot, "C16-R4", "remove$1", p.pos(ci), "the scan examines every element of the collection (left early only by failing)", why)
 			}
 		}
@@ -378,7 +378,7 @@ func checkC16(res *Result) {
 		if fn := p.Func(name); fn != nil {
 			ff := computeFacts(fn)
 			for _, c := range findCalls(E, fn, name+"$1") {
-				tot, why := totalLoop(loopBlocks(c.Block()), failureReturnPred(ff))
+				tot, why := totalLoopFF(ff, loopBlocks(c.Block()))
 				res.check(inLoop(c) && tot, "C16-R4", name, p.pos(c), "every target is processed (loop left early only by failing)", why)
 			}
 		}
@@ -392,7 +392,7 @@ func checkC16(res *Result) {
 		for _, ci := range callsIn(fn) {
 			if ci.Common().IsInvoke() && ci.Common().Method.Name() == "PrependIRI" {
 				res.check(anyBackward(g, ci.Common().Args[0], func(x ssa.Value) bool { return isCallNamed(x, "GetActivityStreamsObject") }), "C16-R4", fname(fn), p.pos(ci), "what is prepended are the ids of the Like's objects", "different source")
-				tot, why := totalLoop(loopBlocks(ci.Block()), failureReturnPred(ff))
+				tot, why := totalLoopFF(ff, loopBlocks(ci.Block()))
 				res.check(tot, "C16-R4", fname(fn), p.pos(ci), "every object id is added", why)
 			}
 		}
